@@ -21,13 +21,15 @@ const (
 	pkUtoa                // decimal rendering of unsigned BV64 term t
 	pkFtoa                // %v rendering of FP64 term t
 	pkOpaque              // unknown text identified by s
+	pkSplice              // transient: a nested piece list to be spliced in (never stored)
 )
 
 type spiece struct {
-	k pkind
-	s string
-	t *Term
-	n int
+	k   pkind
+	s   string
+	t   *Term
+	n   int
+	sub []spiece
 }
 
 type symstr struct{ p []spiece }
@@ -96,6 +98,15 @@ func symstrOf(v value) symstr {
 // normStr merges adjacent concrete pieces and returns a plain string when possible.
 func normStr(ps []spiece) value {
 	var out []spiece
+	flat := make([]spiece, 0, len(ps))
+	for _, p := range ps {
+		if p.k == pkSplice {
+			flat = append(flat, p.sub...)
+		} else {
+			flat = append(flat, p)
+		}
+	}
+	ps = flat
 	for _, p := range ps {
 		if p.k == pkBytes {
 			if p.s == "" {
